@@ -219,14 +219,25 @@ def run_cases(pid, imports, checkfn, terms, shard=250, tag="cases", extra_defs="
     bad = []
     with ThreadPoolExecutor(max_workers=NCPU) as ex:
         results = list(ex.map(_run_shard, shards))
+    def cleanup(keep):
+        # compiled by-products always go; the generated sources stay only for shards that need a look (disk is limited)
+        for sj, (pth,) in enumerate(shards):
+            for ext in (".vo", ".vok", ".vos", ".glob"):
+                pth.with_suffix(ext).unlink(missing_ok=True)
+            (pth.parent / f".{pth.stem}.aux").unlink(missing_ok=True)
+            if sj not in keep:
+                pth.unlink(missing_ok=True)
     for si, (rc, out) in enumerate(results):
         if rc != 0:
+            cleanup({si})
             return bad, f"coqc failed on {shards[si][0].name}: {out[-2000:]}"
         m = _RES.search(out)
         if not m:
+            cleanup({si})
             return bad, f"unparsable coqc output on {shards[si][0].name}: {out[-2000:]}"
         idx = [int(x) for x in re.findall(r"\d+", m.group(1))]
         bad.extend(si * shard + i for i in idx)
+    cleanup({b // shard for b in bad})
     return sorted(bad), None
 
 
